@@ -14,6 +14,8 @@
 // The property fixes only "real part = x" and "negative bins vanish"; the imaginary DC / Nyquist content of the
 // analytic signal is left free by the statement and is not checked.
 #include "vf.hpp"
+#include <functional>
+#include <memory>
 
 using namespace vf;
 using namespace dsplib;
@@ -350,6 +352,26 @@ static void run_hilbert(Ctx& ctx, bool T) {
 }
 
 // ---------------------------------------------------------------------------------------------- HilbertFilter
+// gates with exact zeros (S = scale: fs / filter length / delay), used by the Tuner, HilbertFilter and Delay zero-input cases
+enum { Z_STUFF2, Z_STUFF3, Z_LEAD1, Z_LEAD7, Z_LEADS3, Z_BURST, Z_SINGLE, Z_SINEZ, NZLET };
+static const char* ZNAME[NZLET] = {"zero_stuffed_2", "zero_stuffed_3", "lead_1", "lead_7", "lead_S+3", "burst_silence_burst", "single_zero", "sine_on_zero_crossings"};
+static bool zgate(int zl, long long k, long long S, long long N) {
+    switch (zl) {
+    case Z_STUFF2: return k % 2 == 0;
+    case Z_STUFF3: return k % 3 == 0;
+    case Z_LEAD1: return k >= 1;
+    case Z_LEAD7: return k >= 7;
+    case Z_LEADS3: return k >= S + 3;
+    case Z_BURST: {   // bursts of S/2+3 samples separated by S + S/3 + 2 exact zeros (longer than S: whole frames of S samples are zero)
+        const long long on = S / 2 + 3, off = S + S / 3 + 2;
+        return k % (on + off) < on;
+    }
+    case Z_SINGLE: return k != N / 2;
+    case Z_SINEZ: return k % 2 == 1;   // sin(pi k / 2): 0, 1, 0, -1, ...
+    }
+    return true;
+}
+
 // one tone of L samples through a fresh HilbertFilter(flen, tw), frames taken cyclically from `pat` (empty: one call)
 static void hf_stream(Ctx& ctx, int flen, double tw, int M, int D, double f, double A, ld phi, int L, const std::vector<int>& pat) {
     arr_real x(L);
@@ -513,12 +535,107 @@ static void run_hfilter(Ctx& ctx, bool T) {
     }
 }
 
+// HilbertFilter on an input with runs of EXACT zeros (an all-zero-frame / zero-sample fast path must not disturb the state):
+// real part = input delayed by D (by value), imaginary part = impz() convolved with the input (header: "out = delay(in, M/2)
+// + j * fir(in)"), long-double reference, absolute tolerance 1e-12 * sum|h| * max|x|
+static void hf_zeros(Ctx& ctx, int flen, double tw, int zl, const std::vector<int>& pat) {
+    HilbertFilter flt(flen, tw);
+    const arr_real hz = flt.impz();
+    const int M = hz.size();
+    if (M != flen && M != flen + 1) {
+        ctx.fail("HilbertFilter.impz", fmt("filter length %d", M), fmt("%d or %d", flen, flen + 1), P().kv("kind", "length"));
+        return;
+    }
+    const int D = M / 2, L = 8 * M + 200;
+    arr_real x(L);
+    for (int k = 0; k < L; ++k) {
+        if (!zgate(zl, k, M, L)) x[k] = 0.0;
+        else if (zl == Z_SINEZ) x[k] = (k % 4 == 1) ? 1.0 : -1.0;
+        else x[k] = (double)cosl(2 * PI_L * 0.2L * k + 0.4L);
+    }
+    arr_cmplx y(L);
+    int pos = 0, allzero_frames = 0;
+    size_t j = 0;
+    while (pos < L) {
+        int fl = pat.empty() ? L : std::min(std::max(1, pat[j++ % pat.size()]), L - pos);
+        arr_real fr(fl);
+        bool az = true;
+        for (int i = 0; i < fl; ++i) {
+            fr[i] = x[pos + i];
+            az = az && fr[i] == 0;
+        }
+        allzero_frames += az;
+        arr_cmplx r = flt.process(fr);
+        if (r.size() != fl) {
+            ctx.fail("HilbertFilter.process", "output frame size differs from input frame size", "same size", P().kv("kind", "size"));
+            return;
+        }
+        for (int i = 0; i < fl; ++i) y[pos + i] = r[i];
+        pos += fl;
+    }
+    ctx.nontrivial();
+    if (allzero_frames) ctx.note("hfilter zero input: stream with all-zero frames");
+    int badk = -1;
+    for (int k = 0; k < L && badk < 0; ++k) {
+        double want = (k < D) ? 0.0 : x[k - D];
+        if (!(y[k].re == want)) badk = k;
+    }
+    if (badk >= 0)
+        ctx.fail("HilbertFilter.process", fmt("real part[%d]=%.17g", badk, y[badk].re), fmt("x[%d-%d]=%.17g", badk, D, badk < D ? 0.0 : x[badk - D]),
+                 P().kv("kind", "delay").kv("k", badk));
+    ld sh = 0;
+    for (int m = 0; m < M; ++m) sh += fabsl((ld)hz[m]);
+    const ld tol = 1e-12L * sh;
+    ld worst = 0;
+    int wk = -1;
+    for (int k = 0; k < L; ++k) {
+        ld ref = 0;
+        for (int m = 0; m < M && m <= k; ++m) ref += (ld)hz[m] * (ld)x[k - m];
+        ld e = fabsl((ld)y[k].im - ref);
+        if (!(e <= worst)) worst = e, wk = k;
+    }
+    if (!(worst <= tol))
+        ctx.fail("HilbertFilter.process", fmt("imag[%d] differs from (impz * x)[%d] by %.3Lg", wk, wk, worst), fmt("<= 1e-12 * sum|h| = %.3Lg", tol),
+                 P().kv("kind", "fir").kv("k", wk));
+    else
+        ctx.worst("hfilter zero input: |imag - impz*x| / (1e-12 sum|h|)", (double)(worst / tol));
+}
+
+static void run_hfilter_zeros(Ctx& ctx, bool T) {
+    struct Dz {
+        int flen;
+        double tw;
+    };
+    std::vector<Dz> ds = {{31, 0.05}, {101, 0.01}, {400, 0.01}};
+    if (T) {
+        ds.clear();
+        for (int fl : {31, 32, 51, 101, 200, 201, 401})
+            for (double tw : {0.01, 0.05}) ds.push_back({fl, tw});
+    }
+    for (const Dz& d : ds) {
+        const int M = d.flen | 1;
+        const std::vector<std::vector<int>> pats = {{}, {1, 7, 64, 3, 200, 2}, {M}, {64}};
+        for (int zl = 0; zl < NZLET; ++zl) {
+            for (int framing = 0; framing < 4; ++framing) {
+                if (!ctx.take("hfilter.zeros", P().kv("flen", d.flen).kv("tw", d.tw).kv("letter", ZNAME[zl]).kv("framing", framing))) continue;
+                GUARD_BEGIN
+                hf_zeros(ctx, d.flen, d.tw, zl, pats[(size_t)framing]);
+                GUARD_END("HilbertFilter.process")
+            }
+        }
+    }
+}
+
 // ---------------------------------------------------------------------------------------------- Delay (the mechanism behind the
 // real part of HilbertFilter): out[k] = x[k - D] (0 for k < D), bit-exact, for any framing
 template<class E>
-static void delay_case(Ctx& ctx, int D, int L, const std::vector<int>& pat) {
+static void delay_case(Ctx& ctx, int D, int L, const std::vector<int>& pat, int zl = -1) {
     base_array<E> x(L);
     for (int k = 0; k < L; ++k) {
+        if (zl >= 0 && !zgate(zl, k, D, L)) {
+            x[k] = E{};
+            continue;
+        }
         if constexpr (std::is_same_v<E, cmplx_t>) x[k] = cmplx_t{(double)(k + 1), -(double)(k + 1) - 0.5};
         else x[k] = (double)(k + 1);
     }
@@ -561,6 +678,21 @@ static void run_delay(Ctx& ctx, bool T) {
             }
         }
     }
+    // inputs with runs of exact zeros (whole frames zero), bit-exact shift
+    for (int D : {1, 5, 64, 1000}) {
+        const std::vector<std::vector<int>> zp = {{}, {D}, {1, 7, 64, 3, 200, 2}, {1000}};
+        for (int cplx = 0; cplx < 2; ++cplx) {
+            for (int zl = 0; zl < NZLET - 1; ++zl) {   // the sine letter is a Tuner / filter letter
+                for (int framing = 0; framing < 4; ++framing) {
+                    if (!ctx.take("delay.zeros", P().kv("D", D).kv("type", cplx ? "cmplx" : "real").kv("letter", ZNAME[zl]).kv("framing", framing))) continue;
+                    GUARD_BEGIN
+                    if (cplx) delay_case<cmplx_t>(ctx, D, 8 * D + 200, zp[(size_t)framing], zl);
+                    else delay_case<real_t>(ctx, D, 8 * D + 200, zp[(size_t)framing], zl);
+                    GUARD_END("Delay.process")
+                }
+            }
+        }
+    }
 }
 
 // ---------------------------------------------------------------------------------------------- Tuner
@@ -594,6 +726,62 @@ static ld tuner_angle(const FExact& fe, long long k, int fs) {
     return 2 * PI_L * frac;
 }
 
+// one stream through a fresh Tuner(fs, f): input gen(k) for the absolute sample index k, frames taken cyclically from pat,
+// every sample compared with gen(k) * exp(2 pi i f k / fs) (f k reduced exactly); exact-zero inputs must give |r| <= 1e-9
+static void tuner_stream(Ctx& ctx, int fs, double f, long long N, const std::vector<long long>& pat, const std::function<cmplx_t(long long)>& gen) {
+    FExact fe = fexact(f);
+    if (fe.s > 100) {   // cannot happen for the candidate list (|f| >= 1e-3)
+        ctx.cap("tuner oracle: f too small for exact reduction");
+        return;
+    }
+    std::unique_ptr<Tuner> tn;
+    try {
+        tn.reset(new Tuner(fs, f));
+    } catch (const std::exception& e) {
+        ctx.fail("Tuner.ctor", std::string("constructor threw: ") + e.what(), fmt("f=%.17g is in [-fs/2, fs/2] = [-%g, %g]: accepted", f, fs / 2.0, fs / 2.0),
+                 P().kv("kind", "ctor").kv("fs_odd", fs % 2 == 1).kv("above_int_half", std::fabs(f) > fs / 2));
+        return;
+    }
+    long long pos = 0;
+    int j = 0;
+    long long badk = -1, zeros = 0;
+    ld worst = 0;
+    std::string obs, exp;
+    while (pos < N) {
+        long long flen = pat[(size_t)(j++) % pat.size()];
+        flen = std::min(flen, N - pos);
+        arr_cmplx x((int)flen);
+        for (long long i = 0; i < flen; ++i) x[(int)i] = gen(pos + i);
+        arr_cmplx r = tn->process(x);
+        if (r.size() != (int)flen) {
+            ctx.fail("Tuner.process", "output size differs from input size", "same size", P().kv("kind", "size"));
+            return;
+        }
+        for (long long i = 0; i < flen; ++i) {
+            const long long k = pos + i;
+            const cld xk(x[(int)i].re, x[(int)i].im);
+            cld want = xk * cis(tuner_angle(fe, k, fs));
+            const ld ax = std::abs(xk);
+            if (ax == 0) ++zeros;
+            ld e = std::abs(cld(r[(int)i].re, r[(int)i].im) - want) / (ax == 0 ? 1.0L : ax);
+            if (!(e <= 1e-9L)) {
+                if (badk < 0) {
+                    badk = k;
+                    obs = fmt("r[%lld]=(%.12g,%.12g) for x=(%.12g,%.12g), %lld exact-zero samples before it", k, r[(int)i].re, r[(int)i].im, x[(int)i].re, x[(int)i].im, zeros - (ax == 0));
+                    exp = fmt("x*exp(2 pi i f k/fs)=(%.12Lg,%.12Lg)", want.real(), want.imag());
+                }
+            } else if (!(e <= worst)) {
+                worst = e;
+            }
+        }
+        pos += flen;
+    }
+    if (badk >= 0)
+        ctx.fail("Tuner.process", obs, exp, P().kv("kind", "phase").kv("k", badk).kv("at_wrap", badk == fs));
+    else
+        ctx.worst("tuner: |r-ref|/|x| / 1e-9", (double)(worst / 1e-9L));
+}
+
 static void run_tuner(Ctx& ctx, bool T) {
     std::vector<int> fss = {8, 9, 100, 8000, 100000};
     if (T) fss = {8, 9, 10, 11, 12, 13, 14, 15, 16, 17, 18, 19, 20, 25, 31, 32, 33, 63, 64, 65, 100, 101, 127, 128, 255, 256, 257, 999, 1000, 1001, 4095, 4096, 8000, 11025, 22050, 32000, 44100, 48000, 65535, 65536, 65537, 88200, 96000, 100000};
@@ -621,71 +809,42 @@ static void run_tuner(Ctx& ctx, bool T) {
         const long long NBIG = 140000;
         const std::vector<std::vector<long long>> patterns = {
             {N03}, {1, 2, 3, 5, 7, 11, 64, 1000}, {F}, {2 * F + 3, 1, F - 1, 3 * F + 1, 5}, {F + 1}, {3 * F}, {1, 4 * F + 2, 7}, {1000}, {NBIG}};
+        auto dense = [](long long k) { return cmplx_t{lcg_val(11, (uint64_t)k) + 1.5, lcg_val(12, (uint64_t)k)}; };
         for (double f : fl) {
             const bool fint = (f == std::floor(f));
             for (int framing = 0; framing < (int)patterns.size(); ++framing) {
                 const long long N = framing < 3 ? N03 : (framing < 7 ? 9 * F + 17 : NBIG);
-                const std::vector<long long>& pat = patterns[framing];
                 if (!ctx.take("tuner.phase", P().kv("fs", fs).kv("f", f).kv("fint", fint).kv("framing", framing))) continue;
                 GUARD_BEGIN
                 ctx.note(fint ? "tuner integer f" : "tuner fractional f");
                 ctx.note(framing < 3 ? "tuner framing: frames <= fs or single call" : (framing < 7 ? "tuner framing: frames > fs / > 2 fs followed by more frames" : "tuner framing: 140000 samples (frames of 1000 / one call)"));
                 if (f != 0) ctx.nontrivial();
-                FExact fe = fexact(f);
-                if (fe.s > 100) {   // cannot happen for the candidate list (|f| >= 1e-3)
-                    ctx.cap("tuner oracle: f too small for exact reduction");
-                    continue;
-                }
-                std::unique_ptr<Tuner> tn;
-                try {
-                    tn.reset(new Tuner(fs, f));
-                } catch (const std::exception& e) {
-                    ctx.fail("Tuner.ctor", std::string("constructor threw: ") + e.what(), fmt("f=%.17g is in [-fs/2, fs/2] = [-%g, %g]: accepted", f, fs / 2.0, fs / 2.0),
-                             P().kv("kind", "ctor").kv("fs_odd", fs % 2 == 1).kv("above_int_half", std::fabs(f) > fs / 2));
-                    continue;
-                }
-                long long pos = 0;
-                int j = 0;
-                long long badk = -1;
-                ld worst = 0;
-                std::string obs, exp;
-                bool sized = true;
-                while (pos < N && sized) {
-                    long long flen = pat[(size_t)(j++) % pat.size()];
-                    flen = std::min(flen, N - pos);
-                    arr_cmplx x((int)flen);
-                    for (long long i = 0; i < flen; ++i)
-                        x[(int)i] = cmplx_t{lcg_val(11, (uint64_t)(pos + i)) + 1.5, lcg_val(12, (uint64_t)(pos + i))};
-                    arr_cmplx r = tn->process(x);
-                    if (r.size() != (int)flen) {
-                        sized = false;
-                        break;
-                    }
-                    for (long long i = 0; i < flen; ++i) {
-                        const long long k = pos + i;
-                        cld want = cld(x[(int)i].re, x[(int)i].im) * cis(tuner_angle(fe, k, fs));
-                        ld e = std::abs(cld(r[(int)i].re, r[(int)i].im) - want) / std::abs(cld(x[(int)i].re, x[(int)i].im));
-                        if (!(e <= 1e-9L)) {
-                            if (badk < 0) {
-                                badk = k;
-                                obs = fmt("r[%lld]=(%.12g,%.12g) for x=(%.12g,%.12g)", k, r[(int)i].re, r[(int)i].im, x[(int)i].re, x[(int)i].im);
-                                exp = fmt("x*exp(2 pi i f k/fs)=(%.12Lg,%.12Lg)", want.real(), want.imag());
-                            }
-                        } else if (!(e <= worst)) {
-                            worst = e;
-                        }
-                    }
-                    pos += flen;
-                }
-                if (!sized) {
-                    ctx.fail("Tuner.process", "output size differs from input size", "same size", P().kv("kind", "size"));
-                    continue;
-                }
-                if (badk >= 0)
-                    ctx.fail("Tuner.process", obs, exp, P().kv("kind", "phase").kv("k", badk).kv("at_wrap", badk == fs));
-                else
-                    ctx.worst("tuner: |r-ref|/|x| / 1e-9", (double)(worst / 1e-9L));
+                tuner_stream(ctx, fs, f, N, patterns[(size_t)framing], dense);
                 GUARD_END("Tuner.process")
+            }
+        }
+        // inputs containing EXACT zeros (zero-stuffed, leading silence, burst / silence / burst, a sine sampled on its zero
+        // crossings, one zero sample): sample k is still multiplied by exp(2 pi i f k / fs) with k the absolute index.
+        // Thorough: the sample rates up to 1001 and three large ones.
+        if (T && fs > 1001 && fs != 8000 && fs != 65536 && fs != 100000) continue;
+        const long long NZ = fs <= 1001 ? (long long)std::ceil(3.5 * fs) + 8 : (long long)(1.2 * fs) + 50;
+        const int zfr[4] = {0, 1, 2, 3};
+        const std::vector<std::vector<long long>> zpat = {{NZ}, {1, 2, 3, 5, 7, 11, 64, 1000}, {F}, {2 * F + 3, 1, F - 1, 3 * F + 1, 5}};
+        for (double f : fl) {
+            for (int zl = 0; zl < NZLET; ++zl) {
+                for (int fi = 0; fi < 4; ++fi) {
+                    if (!ctx.take("tuner.zeros", P().kv("fs", fs).kv("f", f).kv("letter", ZNAME[zl]).kv("framing", zfr[fi]))) continue;
+                    GUARD_BEGIN
+                    if (f != 0) ctx.nontrivial();
+                    ctx.note(std::string("tuner input with exact zeros: ") + ZNAME[zl]);
+                    auto gen = [&](long long k) {
+                        if (!zgate(zl, k, F, NZ)) return cmplx_t{0.0, 0.0};
+                        if (zl == Z_SINEZ) return cmplx_t{(k % 4 == 1) ? 1.0 : -1.0, 0.0};
+                        return cmplx_t{lcg_val(11, (uint64_t)k) + 1.5, lcg_val(12, (uint64_t)k)};
+                    };
+                    tuner_stream(ctx, fs, f, NZ, zpat[(size_t)fi], gen);
+                    GUARD_END("Tuner.process")
+                }
             }
         }
     }
@@ -697,6 +856,7 @@ int main(int argc, char** argv) {
     const bool T = ctx.thorough();
     run_hilbert(ctx, T);
     run_hfilter(ctx, T);
+    run_hfilter_zeros(ctx, T);
     run_delay(ctx, T);
     run_tuner(ctx, T);
     return ctx.finish();
